@@ -13,6 +13,14 @@ Open Scope list_scope.
 Lemma forallb_ext' {A} (f g : A -> bool) l : (forall x, f x = g x) -> forallb f l = forallb g l.
 Proof. intros H. induction l as [|x xs IH]; simpl; [reflexivity|]. rewrite H, IH. reflexivity. Qed.
 
+Lemma forallb4 {A} (p q r s : A -> bool) l :
+  (forall x, p x && q x = r x && s x) -> forallb p l && forallb q l = forallb r l && forallb s l.
+Proof.
+  intros H. induction l as [|a l IH]; simpl; [reflexivity|]. specialize (H a).
+  destruct (p a), (q a), (r a), (s a); simpl in *; try discriminate;
+    destruct (forallb p l), (forallb q l), (forallb r l), (forallb s l); simpl in *; congruence.
+Qed.
+
 Section WfRelation.
   Variable num : string -> option float.
   Variable dom : mdomain.
@@ -35,6 +43,10 @@ Section WfRelation.
     forallb (fun g : cmpop * nexp * nexp => match g with (_, l, r) =>
                nexp_args_ok (sp_objects sp) l && nexp_args_ok (sp_objects sp) r end) (sp_goal_num sp).
 
+  (* no fluent of a numeric goal has a repeated argument (legal PDDL that the code refuses: finding D07) *)
+  Definition goal_norepeat (sp : sproblem) : bool :=
+    forallb (fun g : cmpop * nexp * nexp => match g with (_, l, r) => nexp_nodup l && nexp_nodup r end) (sp_goal_num sp).
+
   Lemma nexp_ok_split objs n : nexp_ok v objs n = shape_ok (d_funcs dom) n && nexp_args_ok objs n.
   Proof.
     unfold shape_ok. induction n as [x|f args|o a IHa b IHb]; simpl; [reflexivity| |].
@@ -49,23 +61,26 @@ Section WfRelation.
   Lemma type_declared_known t : type_declared v t = type_known (d_types dom) t.
   Proof. unfold type_declared, type_known, dmem. simpl. rewrite dget_lookup. reflexivity. Qed.
 
-  (* the spec's well-formedness = what the code checks + the unchecked part *)
-  Theorem wf_split sp : wf_sproblem num v sp = wf_code num dom sp && goal_args_ok sp.
+  (* the spec's well-formedness + the restriction the code adds = what the code checks + the part it omits *)
+  Theorem wf_split sp : wf_sproblem num v sp && goal_norepeat sp = wf_code num dom sp && goal_args_ok sp.
   Proof.
-    unfold wf_sproblem, wf_code, goal_args_ok, types_ok. simpl.
+    unfold wf_sproblem, wf_code, goal_args_ok, goal_norepeat, types_ok. simpl.
     assert (Ht : forallb (fun o : name * name => type_declared v (snd o)) (sp_objects sp)
                  = forallb (fun o : string * string => type_known (d_types dom) (snd o)) (sp_objects sp)).
     { apply forallb_ext'. intros o. apply type_declared_known. }
     rewrite Ht.
     assert (Hg : forallb (fun g : cmpop * nexp * nexp => let (y, r) := g in let (_, l) := y in
                              nexp_ok v (sp_objects sp) l && nexp_ok v (sp_objects sp) r) (sp_goal_num sp)
+                 && forallb (fun g : cmpop * nexp * nexp => let (y, r) := g in let (_, l) := y in
+                               nexp_nodup l && nexp_nodup r) (sp_goal_num sp)
                  = forallb (fun g : cmpop * nexp * nexp => let (y, r) := g in let (_, l) := y in
-                              shape_ok (d_funcs dom) l && shape_ok (d_funcs dom) r) (sp_goal_num sp)
+                              code_ok (d_funcs dom) l && code_ok (d_funcs dom) r) (sp_goal_num sp)
                    && forallb (fun g : cmpop * nexp * nexp => let (y, r) := g in let (_, l) := y in
                                  nexp_args_ok (sp_objects sp) l && nexp_args_ok (sp_objects sp) r) (sp_goal_num sp)).
-    { induction (sp_goal_num sp) as [|[[c l] r] gs IH]; simpl; [reflexivity|].
-      rewrite IH, !nexp_ok_split. btauto. }
-    unfold fluent_ok. rewrite Hg. rewrite !andb_assoc. reflexivity.
+    { apply forallb4. intros [[c l] r]. rewrite !nexp_ok_split. unfold code_ok. btauto. }
+    unfold fluent_ok.
+    match goal with |- (?x && ?a) && ?b = (?y && ?c) && ?d =>
+      transitivity (x && (a && b)); [symmetry; apply andb_assoc|]; rewrite Hg; apply andb_assoc end.
   Qed.
 End WfRelation.
 
@@ -88,30 +103,33 @@ Section Theorems.
     - destruct H as [k H]. split; [intros [pb Hpb]; rewrite H in Hpb; discriminate | discriminate].
   Qed.
 
-  (* a well-formed problem is accepted ... *)
+  (* a well-formed problem is accepted, repeated arguments in numeric goals apart (D07) ... *)
   Lemma C05_accepts_lemma e sp :
-    read_problem num e = Some sp -> wf_sproblem num v sp = true -> accepted e.
+    read_problem num e = Some sp -> goal_norepeat sp = true -> wf_sproblem num v sp = true -> accepted e.
   Proof.
-    intros Hr Hwf. apply (accepted_iff_code e sp Hr). rewrite wf_split in Hwf. apply andb_true_iff in Hwf. tauto.
+    intros Hr Hn Hwf. apply (accepted_iff_code e sp Hr).
+    pose proof (wf_split num dom sp) as H. rewrite Hwf, Hn in H. simpl in H. symmetry in H.
+    apply andb_true_iff in H. tauto.
   Qed.
 
   (* ... and, the arguments of numeric-goal fluents apart (D19d), nothing else is *)
   Lemma C05_iff_partial_lemma e sp :
-    read_problem num e = Some sp -> goal_args_ok dom sp = true ->
+    read_problem num e = Some sp -> goal_args_ok dom sp = true -> goal_norepeat sp = true ->
     (accepted e <-> wf_sproblem num v sp = true).
   Proof.
-    intros Hr Hg. rewrite wf_split, Hg, andb_true_r. apply accepted_iff_code. exact Hr.
+    intros Hr Hg Hn. pose proof (wf_split num dom sp) as H. rewrite Hg, Hn, !andb_true_r in H. rewrite H.
+    apply accepted_iff_code. exact Hr.
   Qed.
 
   Lemma C05_rejects_lemma e sp :
     read_problem num e = Some sp -> goal_args_ok dom sp = true -> wf_sproblem num v sp = false ->
     exists k, parse_problem cfg_fixed num dom e = Err k.
   Proof.
-    intros Hr Hg Hwf. rewrite wf_split, Hg, andb_true_r in Hwf.
-    pose proof (parse_problem_spec num dom Hdom Hnum e sp Hr) as H. rewrite Hwf in H. exact H.
+    intros Hr Hg Hwf. pose proof (wf_split num dom sp) as Hs. rewrite Hg, Hwf, andb_true_r in Hs. simpl in Hs.
+    pose proof (parse_problem_spec num dom Hdom Hnum e sp Hr) as H. rewrite <- Hs in H. exact H.
   Qed.
 
-  (* what is accepted is parsed faithfully, repeated fluent arguments apart (D07) *)
+  (* what is accepted is parsed faithfully, repeated arguments of initial fluents apart (D07) *)
   Lemma C05_faithful_partial_lemma e sp pb :
     read_problem num e = Some sp -> no_repeats sp = true ->
     parse_problem cfg_fixed num dom e = Ok pb ->
@@ -153,7 +171,7 @@ Qed.
    numeric goals) *)
 Example C05_nonvacuous :
   exists sp, read_problem ex_num ex_problem = Some sp /\ wf_sproblem ex_num (vocab_of ex_dom) sp = true /\
-             goal_args_ok ex_dom sp = true /\ no_repeats sp = true /\
+             goal_args_ok ex_dom sp = true /\ goal_norepeat sp = true /\ no_repeats sp = true /\
              List.length (sp_objects sp) = 4 /\ List.length (sp_facts sp) = 4 /\ List.length (sp_fluents sp) = 3 /\
              List.length (sp_goal sp) = 1 /\ List.length (sp_goal_num sp) = 2.
 Proof. eexists. split; [vm_compute; reflexivity|]. vm_compute. repeat split; reflexivity. Qed.
@@ -208,7 +226,16 @@ Proof.
   vm_compute in Er. injection Er as <-. vm_compute in Ep. injection Ep as <-. vm_compute in H. discriminate.
 Qed.
 
-(* the pinned configuration (before the proposed fixes D19a, D19b, D19c) *)
+(* D07, second face: a well-formed numeric goal over a fluent with a repeated argument is refused *)
+Definition d07_goal_problem : sexp := tok
+  "(define (problem pr) (:domain dom) (:objects o0 - t1) (:init) (:goal (and (= (f2 o0 o0) 1))))".
+
+Lemma C05_accepts_refuted_lemma :
+  exists sp k, read_problem ex_num d07_goal_problem = Some sp /\ wf_sproblem ex_num (vocab_of ex_dom) sp = true /\
+               goal_args_ok ex_dom sp = true /\ parse_problem cfg_fixed ex_num ex_dom d07_goal_problem = Err k.
+Proof. eexists. eexists. split; [vm_compute; reflexivity|]. split; [vm_compute; reflexivity|]. split; vm_compute; reflexivity. Qed.
+
+(* the pinned configuration (before the fixes D19a, D19b, D19c and the application check c7c8534) *)
 Definition d19a_problem : sexp := tok
   "(define (problem pr) (:domain dom) (:objects o0 - t1 o3) (:init (p0 o0)) (:goal (and)))".
 Definition d19b_problem : sexp := tok
